@@ -24,6 +24,15 @@ class Aliasing(Suite):
     name = 'no_shared_mutable_values'
     model = ''
 
+    def corpus(self):
+        from ..suites_chain import K, P
+        # a class with mutable defaults, mounted under two namespaces and at the root
+        cls = [dict(K(0, 'Abc', params=[P('x', default=[[1, {'k': [2]}]]), P('y', default=[{'d': [1]}])]), name='abc'),
+               dict(K(1, 'Dep', meta_inputs=[{'cls': 0}], params=[P('x', default=[[1, {'k': [2]}]])]), name='dep')]
+        return [dict(classes=cls, files={'one.json': {'tasks': ['@M.*']}, 'two.json': {'tasks': ['@M.*'], 'y': {'d': [1]}}},
+                     base={'name': 'main', 'data': {'tasks': ['@M.*'], 'uses': ['one.json as a', 'two.json as b']}},
+                     context={'dict': {'shared': [1]}})]
+
     def gen(self, rng, tier):
         from ..gen_pipeline import gen_case
         out = []
@@ -45,8 +54,9 @@ class Aliasing(Suite):
                 kw = dict(global_vars=pl.gv_arg(case), context=ctx)
                 base = case['base']
                 from pathlib import Path
-                cfg = (Config(Path('data'), base['file'], **kw) if 'file' in base else
-                       Config(Path('data'), name=base['name'], data=pl.subst_mod(pl.spec_to_doc(base['data']), mod), **kw))
+                make_cfg = lambda: (Config(Path('data'), base['file'], **kw) if 'file' in base else
+                                    Config(Path('data'), name=base['name'], data=pl.subst_mod(pl.spec_to_doc(base['data']), mod), **kw))
+                cfg = make_cfg()
                 chain = cfg.chain()
             except CONSTRUCTION_ERRORS as e:
                 return dict(error=type(e).__name__)
@@ -83,7 +93,38 @@ class Aliasing(Suite):
             for name in snapshot:
                 if repr(snapshot[name]) != repr(after[name]):
                     problems.append(f'mutating the context changed config {name}')
-            return dict(configs=len(configs), problems=problems[:3])
+            # the values the tasks hold - configured ones and declared defaults: no task shares a mutable value with a
+            # task of another config, with the declaration on the class, or with a task of a chain of a config made
+            # afterwards in the same way (tasks of one config do hold the config's own values, that is one config)
+            def task_ids(ch):
+                out = {}
+                for n, t in ch.tasks.items():
+                    ids = set()
+                    for k in t.params.keys() if hasattr(t.params, 'keys') else []:
+                        mutable_ids(t.params[k], ids)
+                    cfg_of = t.get_config()
+                    out[n] = (ids, id(getattr(cfg_of, 'original_config', cfg_of)))
+                return out
+            declared = set()
+            for t in chain.tasks.values():
+                for p in getattr(t.meta, 'parameters', None) or []:
+                    mutable_ids(getattr(p, 'default', None), declared)
+            mine = task_ids(chain)
+            try:
+                later = task_ids(make_cfg().chain())
+            except CONSTRUCTION_ERRORS:
+                later = {}
+            names = sorted(mine)
+            for i, a in enumerate(names):
+                if mine[a][0] & declared:
+                    problems.append(f'task {a} holds the very object declared as a default on its class')
+                for b in names[i + 1:]:
+                    if mine[a][0] & mine[b][0] and mine[a][1] != mine[b][1]:
+                        problems.append(f'tasks {a} and {b} of different configs share a mutable parameter value')
+                for b, (ids, _) in later.items():
+                    if mine[a][0] & ids:
+                        problems.append(f'task {a} shares a mutable parameter value with task {b} of a chain built afterwards from a new config')
+            return dict(configs=len(configs), problems=problems[:3], tasks=len(names))
 
     def oracle(self, case, obs):
         if 'unexpected_exception' in obs:
@@ -93,7 +134,7 @@ class Aliasing(Suite):
         return None
 
     def nontrivial(self, case, obs):
-        return obs.get('configs', 0) >= 2
+        return obs.get('configs', 0) >= 2 or obs.get('tasks', 0) >= 2
 
     def key(self, case):
         return repr(case)
